@@ -8,8 +8,8 @@
    Model/PubSubTag.v when present; otherwise they are named `_partial` with the full statement in a comment.
    Statements only. *)
 From Coq Require Import List Arith Bool.
-From BB.Model Require Import PubSubAbs.
-From BB.Proofs Require PubSubAbs PubSubC06.
+From BB.Model Require Import PubSubAbs PubSubTag.
+From BB.Proofs Require PubSubAbs PubSubC06 PubSubTag.
 Import ListNotations.
 
 (* No copy of a message is ever taken by a subscriber that the running Send did not count when it read `subscribers`
@@ -36,7 +36,8 @@ Print Assumptions C06_delivery_only_to_counted.
 (* Exact count and acknowledgement barrier: when Send is about to return n (S9), exactly n copies were taken in this round
    (ghost rcv) and the n receivers are all inside Wait; it then publishes pongN = n and (S10) returns only when each of
    them has consumed its pong (pongN = number still inside Wait).
-   FULL CLAUSE: "... by n DISTINCT subscriptions": distinctness is C06_at_most_once_per_round on the tagged extension. *)
+   "... by n DISTINCT subscriptions": the n receipts of the round are by n different subscriptions because no subscription
+   holds two receipts of one round (C06_no_duplicate below, for an arbitrary subscription). *)
 Theorem C06_send_count_exact : forall senders subscribers sched,
   let s := run (init senders subscribers) sched in
   (sp s = S9 -> v s sent = v s rcv /\ v s sent = v s b1) /\
@@ -80,3 +81,73 @@ Theorem C06_send_without_write_lock_refuted : exists sched,
   v (run_gen Proofs.PubSubAbs.no_wlock_flags (init 1 2) sched) steal = 1.
 Proof. exact Proofs.PubSubAbs.no_wlock_refuted. Qed.
 Print Assumptions C06_send_without_write_lock_refuted.
+
+(* ---- identity clauses, on the tagged extension ------------------------------------------------------------------------ *)
+
+(* The base of every tagged run is a run of the counter abstraction (so all theorems above and those of C07 hold of it), and
+   tagging restricts nothing: whenever the counter abstraction can take a pick, an anonymous thread or the tagged one can. *)
+Theorem C06_tagged_run_is_abstract_run : forall sched t,
+  exists sched', base (trun t sched) = run (base t) sched'.
+Proof. exact Proofs.PubSubTag.tagged_base_is_abstract_run. Qed.
+Print Assumptions C06_tagged_run_is_abstract_run.
+
+Theorem C06_tagging_loses_no_behaviour : forall t p b', step (base t) p = Some b' ->
+  exists q t', pick_of q = p /\ tstep t q = Some t' /\ base t' = b'.
+Proof. exact Proofs.PubSubTag.tagging_is_complete. Qed.
+Print Assumptions C06_tagging_loses_no_behaviour.
+
+(* All subscriptions observe ONE order (the rounds, numbered in sendMu order), each seeing a CONTIGUOUS run of it: the rounds
+   a subscription received, oldest first, are consecutive numbers a, a+1, ..., a+m-1. *)
+Theorem C06_contiguous_run_of_one_order : forall senders others sched,
+  let t := trun (tinit senders others) sched in
+  exists a, rev (tlog t) = seq a (length (tlog t)).
+Proof. exact Proofs.PubSubTag.receipts_are_contiguous_run. Qed.
+Print Assumptions C06_contiguous_run_of_one_order.
+
+(* No subscription receives a message twice. *)
+Theorem C06_no_duplicate : forall senders others sched,
+  NoDup (tlog (trun (tinit senders others) sched)).
+Proof. exact Proofs.PubSubTag.receipts_no_duplicate. Qed.
+Print Assumptions C06_no_duplicate.
+
+(* No subscription receives a message whose Send had already returned when the subscription was made: it receives only
+   rounds counted AFTER it incremented `subscribers` (tsub < n), and only rounds that exist (n <= round). *)
+Theorem C06_no_stale : forall senders others sched,
+  let t := trun (tinit senders others) sched in
+  Forall (fun n => tsub t < n <= round t) (tlog t).
+Proof. exact Proofs.PubSubTag.receipts_not_stale. Qed.
+Print Assumptions C06_no_stale.
+
+(* Every receipt is a receipt of the RUNNING round, by a subscription that this Send counted, while Send is delivering. *)
+Theorem C06_receipt_only_when_counted : forall senders others sched p t',
+  let t := trun (tinit senders others) sched in
+  tstep t (Tag p) = Some t' -> is_recv p = true ->
+  towed t = true /\ tp t = b0o /\ sp (base t) = S6 /\ tlog t' = round t :: tlog t.
+Proof. exact Proofs.PubSubTag.receipt_only_when_counted. Qed.
+Print Assumptions C06_receipt_only_when_counted.
+
+(* Every subscription established before the Send counted (hence before any Send that began later) and not withdrawn when
+   the Send is past delivery is among the receivers: counted + still subscribed (Add(-1) not invoked) at S8/S9/S10 implies
+   the newest receipt is this round. *)
+Theorem C06_standing_included : forall senders others sched,
+  let t := trun (tinit senders others) sched in
+  (sp (base t) = S8 \/ sp (base t) = S9 \/ sp (base t) = S10) ->
+  towed t = true -> standing (tp t) = true ->
+  hd_error (tlog t) = Some (round t).
+Proof. exact Proofs.PubSubTag.standing_included. Qed.
+Print Assumptions C06_standing_included.
+
+Theorem C06_counted_during_delivery : forall senders others sched,
+  let t := trun (tinit senders others) sched in
+  (sp (base t) = S5 \/ sp (base t) = S6 \/ sp (base t) = S7) -> standing (tp t) = true ->
+  towed t = true /\ (tp t = b0o \/ (tp t = b1 /\ hd_error (tlog t) = Some (round t))).
+Proof. exact Proofs.PubSubTag.counted_during_delivery. Qed.
+Print Assumptions C06_counted_during_delivery.
+
+(* Mutation on the tagged model: without the write lock, Send is about to return 1 although the subscription it counted,
+   still idle and subscribed, has received nothing (a late joiner took its copy). *)
+Theorem C06_standing_included_without_write_lock_refuted : exists sched,
+  let t := trun_gen Proofs.PubSubAbs.no_wlock_flags (tinit 1 1) sched in
+  sp (base t) = S9 /\ v (base t) sent = 1 /\ towed t = true /\ standing (tp t) = true /\ tlog t = [].
+Proof. exact Proofs.PubSubTag.standing_included_without_wlock_refuted. Qed.
+Print Assumptions C06_standing_included_without_write_lock_refuted.
